@@ -190,6 +190,10 @@ func genRioCase(r *Rng, tier string) *rioCase {
 	if r.Chance(10) {
 		n = 0
 	}
+	if c.direct && r.Chance(60) {
+		// enough data to wrap the block buffer several times (stale bytes from earlier blocks must not leak into the padding)
+		n = 20 + r.Intn(60)
+	}
 	if tier == "thorough" && r.Chance(10) {
 		n = 10 + r.Intn(40)
 	}
@@ -201,6 +205,9 @@ func genRioCase(r *Rng, tier string) *rioCase {
 		switch {
 		case c.direct || k < 78:
 			p := genPayload(r, around)
+			if c.direct && n >= 20 && r.Chance(70) {
+				p = r.Bytes(40 + r.Intn(400))
+			}
 			if c.direct && len(p) >= 2048 {
 				p = p[:2047]
 			}
